@@ -10,6 +10,8 @@ DECLS = [
     ("decl", "str", "s", S("hi")),
     ("arr", "float", "A", None, [[N("1.5"), N("2.5")], [U("-", N("3.0")), N("4.25")]]),
     ("arr", "int", "B", (1, 2), [[N("5"), U("-", N("6"))]]),
+    ("arr", "float", "p1", None, [[N("0.5"), U("-", N("1.5"))]]),      # a p-array in tdm programs, an ordinary array elsewhere
+    ("arr", "complex", "W", (1, 1), [[N("0.5j")]]),      # a one-element array is still an array
     ("arr", "float", "T", None, [[P("a"), N("1.5")], [N("2.5"), P("alpha")]]),
     ("arr", "complex", "U", None, [[N("1+2j"), N("0.5j"), N("3.0")], [U("-", N("1j")), N("2-1j"), N("0.25")]]),
 ]
@@ -22,12 +24,14 @@ ARG_SHAPES = [
     ("float", N("0.5")), ("float", U("-", N("0.25"))), ("float", N("1e-7")), ("float", N("1.5e10")),
     ("float", B("+", N("0.1"), N("0.2"))), ("float", B("/", N("1"), N("3"))), ("float", B("/", N("7"), N("2"))),
     ("float", V("x")), ("float", B("**", V("x"), N("2"))), ("float", F("sqrt", V("x"))), ("float", B("*", N("2"), PI)),
-    ("float", IDX("A", N("1"))), ("float", IDX("A", V("n"))),
+    ("float", IDX("A", N("1"))), ("float", IDX("A", V("n"))), ("float", U("-", N("0.0"))), ("float", N("123456789.123456789")),
     ("complex", N("1+2j")), ("complex", N("-1-2j")), ("complex", N("0.5j")), ("complex", N("1.5e1-2.5e-1j")),
-    ("complex", V("z")), ("complex", F("exp", V("z"))),
+    ("complex", V("z")), ("complex", F("exp", V("z"))), ("complex", N("1-0j")), ("complex", N("-0.0-2j")),
     ("bool", BOOL(True)), ("bool", BOOL(False)), ("bool", V("b")),
     ("str", S("s")), ("str", S("with space")), ("str", V("s")),
-    ("array", V("A")), ("array", V("B")), ("array", V("U")), ("array-with-parameters", V("T")), ("array-with-parameters", IDX("T", N("3"))),
+    # strings that look like other literals / names
+    ("str", S("caf\u00e9 \u03c0/2")), ("str", S("a\\b\\n")), ("str", S("a#b")), ("str", S("True")), ("str", S("1.5")), ("str", S("n")), ("str", S("x=1, y")),
+    ("array", V("A")), ("array", V("B")), ("array", V("U")), ("array-1x1", V("W")), ("array-1x1", IDX("W", N("0"))), ("array-p-name", V("p1")), ("array-p-name", IDX("p1", N("1"))), ("array-with-parameters", V("T")), ("array-with-parameters", IDX("T", N("3"))),
     ("param", P("a")), ("param", U("-", P("a"))), ("param", B("*", N("2"), P("a"))), ("param", B("+", P("a"), P("b"))),
     ("param", B("**", P("a"), N("2"))), ("param", B("/", N("1"), P("a"))), ("param", B("/", P("a"), P("b"))),
     ("param", B("-", B("*", P("a"), P("b")), N("1"))), ("param", B("+", P("alpha"), P("a"))),
@@ -66,6 +70,8 @@ METAS = [
     dict(name="m9", version="1.0", target=("g", [], [("shots", N("10")), ("s", S("a"))]), type=("sampling", None, [])),
     dict(name="m10", version="1.0", target=("g", None, []), type=("t", [], [("k", N("2"))])),
     dict(name="m11", version="1.0", type=("plain", None, [])),
+    # version numbers whose text is not the shortest form of their value
+    dict(name="v_1", version="1.10"), dict(name="v2", version="02.50", target=("g", None, [])), dict(name="v3", version="1.5e1"),
 ]
 
 
